@@ -153,6 +153,8 @@ int locks_held(int task) { return R->tasks[task].held; }
 void note_lock(int d) { if (R && R->active) R->tasks[R->cur].held += d; }
 void count_fault(int kind) { R->res.fired[kind]++; }
 
+// values mixed into the log hash must not depend on ASLR: pointers into the arena are logged as offsets
+static inline uint64_t norm(uint64_t v) { return (v - (uint64_t)(uintptr_t)arena) < arena_size ? (v - (uint64_t)(uintptr_t)arena) | (1ull << 62) : v; }
 static inline uint64_t mix(uint64_t h, uint64_t x) {
 	h ^= x + 0x9e3779b97f4a7c15ull + (h << 6) + (h >> 2);
 	return h * 0xff51afd7ed558ccdull;
@@ -603,7 +605,7 @@ static uint64_t do_atomic(int kind, void *addr, int size, uint64_t operand, uint
 		const StoreRec &s = L.hist[i];
 		result = s.val;
 		if (s.has_rel) { if (is_acq(mo)) t.clk.join(s.rel); else t.pending_acq.join(s.rel); }
-		r.hash = mix(r.hash, (off(addr) << 8) ^ 0xA1 ^ ((uint64_t)me << 56) ^ (result * 0x9e3779b97f4a7c15ull));
+		r.hash = mix(r.hash, (off(addr) << 8) ^ 0xA1 ^ ((uint64_t)me << 56) ^ (norm(result) * 0x9e3779b97f4a7c15ull));
 		r.shash = mix(r.shash, (off(addr) << 8) ^ 0xA1 ^ ((uint64_t)me << 56));
 		if (mo == 5) r.sc_clock.join(t.clk);
 		if (me != 0) spin_account(t, off(addr), result, L);
@@ -658,7 +660,7 @@ static uint64_t do_atomic(int kind, void *addr, int size, uint64_t operand, uint
 		if (ok) *ok = success;
 	}
 	if (mo == 5) r.sc_clock.join(t.clk);
-	r.hash = mix(r.hash, (off(addr) << 8) ^ (0xB0 + kind) ^ ((uint64_t)me << 56) ^ (result * 0x9e3779b97f4a7c15ull));
+	r.hash = mix(r.hash, (off(addr) << 8) ^ (0xB0 + kind) ^ ((uint64_t)me << 56) ^ (norm(result) * 0x9e3779b97f4a7c15ull));
 	r.shash = mix(r.shash, (off(addr) << 8) ^ (0xB0 + kind) ^ ((uint64_t)me << 56));
 	return result;
 }
